@@ -107,6 +107,9 @@ def gen_system(tier, seed):
             for k in range(r.randint(1, 2)):
                 ls = ["t"] + r.sample("rg", r.randint(0, 2))
                 proc = r.choice(active + ["-"]) if r.random() < 0.8 else "-"
+                if k == 1 and stocks[0][1] != "-" and r.random() < 0.5:
+                    proc = stocks[0][1]            # several stocks at one process
+                    stats["shared_stock_process"] = stats.get("shared_stock_process", 0) + 1
                 if balanced and proc != "-":
                     # a stock whose net addition is matched by a flow from the environment
                     inflow = [Fraction(r.randint(0, 20), 2) for _ in labels(ls)]
@@ -118,6 +121,10 @@ def gen_system(tier, seed):
                     inflow = [Fraction(r.randint(0, 20), 2) for _ in labels(ls)]
                     outflow = [Fraction(r.randint(0, 20), 2) for _ in labels(ls)]
                 sv = [Fraction(r.randint(0, 90), 2) for _ in labels(ls)]
+                if proc == "-" and r.random() < 0.5:
+                    # a stock outside every process that dominates the magnitudes (default tolerance)
+                    sv = [v * 4096 for v in sv]
+                    stats["big_free_stock"] = stats.get("big_free_stock", 0) + 1
                 stocks.append([f"s{k}", proc, ls, sv, inflow, outflow])
         else:
             stats["no_stocks"] += 1
